@@ -126,10 +126,11 @@ Definition parse_entry (cs : list chunk) : res read_entry :=
 Definition opt_chunk {A} (t : bytes) (f : A -> bytes) (o : option A) : list chunk :=
   match o with Some a => [mk t (f a)] | None => [] end.
 
-(* chunks_write_in / into_chunks (data units of at most u32::MAX bytes: `chunks(u32::MAX)`
-   yields nothing for an empty payload, so empty data chunks vanish) *)
-Definition data_chunks (t : bytes) (d : bytes) : list chunk :=
-  match d with [] => [] | _ => [mk t d] end.     (* payloads >= 2^32 are outside the model *)
+(* chunks_write_in / into_chunks (data units of at most u32::MAX bytes: `data_chunk.chunks(u32::MAX as usize)`
+   yields nothing for an empty payload, so empty data chunks vanish; a payload of 2^32 bytes or more becomes several
+   chunks).  Stated for every bound cmax (Chunk.pieces); the code's bound is CMAX *)
+Definition data_chunks_at (cmax : N) (t : bytes) (d : bytes) : list chunk := map (mk t) (pieces cmax d).
+Definition data_chunks (t : bytes) (d : bytes) : list chunk := data_chunks_at CMAX t d.
 
 Definition ser_normal (e : normal_entry) : list chunk :=
   let m := n_meta e in
